@@ -26,7 +26,13 @@ def maildir_spec(path, subjects):
     return spec
 
 
-subject_st = st.text("abcdefgh XYZ0123", min_size=1, max_size=12).map(str.strip).filter(bool)
+subject_st = st.one_of(
+    st.text("abcdefgh XYZ0123", min_size=1, max_size=12).map(str.strip).filter(bool),
+    st.text("abcdefgh XYZ0123", min_size=1, max_size=12).map(str.strip).filter(bool),
+    # RFC 2047 encoded words as mail programs write them - well-formed, with a charset Python has no codec for, cut off
+    st.sampled_from(["=?utf-8?q?caf=C3=A9?=", "=?iso-8859-1?b?Y2Fm6Q==?=", "=?iso-8859-8-i?q?abc?=", "=?x-mac-roman?q?r=8Esum=8E?=",
+                     "=?utf-8?b?QUJDR?=", "=?utf-8?q?broken", "Re: =?windows-874?b?4Liq?= tail", "=?utf-8?x?y?=", "=??q?x?="]),
+)
 
 SCRIPT = "#!/bin/sh\necho \"script output search=[$SEARCHREQUEST] selector=[$SELECTOR]\"\n"
 
